@@ -2112,7 +2112,7 @@ impl SubRule {
     ) -> Result<bool, RuleRuntimeError> {
         let err_pos = states[*state_index].position;
         match &states[*state_index].kind {
-            ParseElement::Variable(vt, m) => if self.input_match_var(captures, state_index, vt, m, word, seg_pos, err_pos)? {
+            ParseElement::Variable(vt, m) => if self.input_match_var(captures, vt, m, word, seg_pos, err_pos)? {
                 *state_index += 1;
                 Ok(true)
             } else { Ok(false) },
@@ -2433,7 +2433,7 @@ impl SubRule {
 
         for (i,s) in set.iter().enumerate() {
             let res = match &s.kind {
-                ParseElement::Variable(vt, mods) => self.input_match_var(captures, state_index, vt, mods, word, pos, s.position),
+                ParseElement::Variable(vt, mods) => self.input_match_var(captures, vt, mods, word, pos, s.position),
                 ParseElement::Ipa(seg, mods) => if self.input_match_ipa(captures, seg, mods, word, pos, s.position)? {
                     pos.increment(word);
                     Ok(true)
@@ -2442,7 +2442,13 @@ impl SubRule {
                     pos.increment(word);
                     Ok(true)
                 } else { Ok(false) },
-                ParseElement::Syllable(stress, tone, var) => self.input_match_syll(captures, state_index, stress, tone, var, word, pos),
+                ParseElement::Syllable(stress, tone, var) => {
+                    // input_match_syll advances state_index itself; for a member of a set that is the caller's business
+                    let back_state = *state_index;
+                    let m = self.input_match_syll(captures, state_index, stress, tone, var, word, pos);
+                    *state_index = back_state;
+                    m
+                },
                 ParseElement::SyllBound => if pos.at_syll_start() {
                     captures.push(MatchElement::SyllBound(pos.syll_index, Some(i))); // FIXME: `i` is being unnecessarily reassigned
                     Ok(true)
@@ -2503,7 +2509,7 @@ impl SubRule {
         }
     }
 
-    fn input_match_syll_var(&self, captures: &mut Vec<MatchElement>, state_index: &mut usize, syll_to_match: &Syllable, mods: &Option<Modifiers>, word: &Word, pos: &mut SegPos) -> Result<bool, RuleRuntimeError> {
+    fn input_match_syll_var(&self, captures: &mut Vec<MatchElement>, syll_to_match: &Syllable, mods: &Option<Modifiers>, word: &Word, pos: &mut SegPos) -> Result<bool, RuleRuntimeError> {
         if pos.seg_index != 0 || word.out_of_bounds(*pos){
             return Ok(false)
         }
@@ -2528,7 +2534,7 @@ impl SubRule {
         }
         captures.push(MatchElement::Syllable(csi, None));
 
-        *state_index += 1;
+        // NOTE: state_index is advanced by the caller (input_match_item / input_match_set) on a match
         pos.syll_index += 1;
         pos.seg_index = 0;
 
@@ -2542,14 +2548,14 @@ impl SubRule {
         
     }
 
-    fn input_match_var(&self, captures: &mut Vec<MatchElement>, state_index: &mut usize, vt: &Token, mods: &Option<Modifiers>, word: &Word, pos: &mut SegPos, err_pos: Position) -> Result<bool, RuleRuntimeError> {
+    fn input_match_var(&self, captures: &mut Vec<MatchElement>, vt: &Token, mods: &Option<Modifiers>, word: &Word, pos: &mut SegPos, err_pos: Position) -> Result<bool, RuleRuntimeError> {
         match self.variables.borrow_mut().get(&vt.value.parse::<usize>().unwrap()) {
             Some(var) => match var {
                 VarKind::Segment(s)  => if self.input_match_ipa(captures, s, mods, word, pos, err_pos)? {
                     pos.increment(word);
                     Ok(true)
                 } else { Ok(false) },
-                VarKind::Syllable(s) => self.input_match_syll_var(captures, state_index , s, mods, word, pos),
+                VarKind::Syllable(s) => self.input_match_syll_var(captures, s, mods, word, pos),
             },
             None => Err(RuleRuntimeError::UnknownVariable(vt.clone())),
         }
